@@ -89,6 +89,7 @@ class CentralizedTaskingEngine(TaskingEngine):
         # Pre-conditions: reset values to ensure clean tasking state at start of every timestep
         self._observations = []
         self._missed_observations = []
+        self.sensor_changes = {}
         self.visibility_matrix = zeros((self.num_targets, self.num_sensors), dtype=bool)
         self.decision_matrix = zeros((self.num_targets, self.num_sensors), dtype=bool)
         self.reward_matrix = zeros((self.num_targets, self.num_sensors), dtype=float)
